@@ -102,6 +102,14 @@ structure RtlFacts where
   compRoute : List String              -- floo_route_comp: gen_route
   routerDefaults : List String         -- floo_router: defaults of XYRouteOpt and NoLoopback
   chimneyComp : List (List String)     -- every instantiation of floo_route_comp in the two chimneys (file name first)
+  chimneyIds : List (List String)      -- chimneys: every statement about the source/destination identity of a flit
+  compAll : List String                -- floo_route_comp, whole
+  tbJobs : List (List String)          -- mesh testbenches: Index / JobId / MemBaseAddr and the loops around them
+  setPorts : List String               -- floo_pkg::set_ports
+  axiRouter : List String              -- floo_axi_router, whole
+  nwRouter : List String               -- floo_nw_router, whole
+  selectAll : List String              -- floo_route_select, whole
+  routerAll : List String              -- floo_router, whole
   deriving Inhabited
 
 end FlooVerif.Rtl
